@@ -1,5 +1,6 @@
 (* C06 — the stream reader delivers every well-formed frame, in order, typed by protocol. *)
-From PyUbx Require Import Base Bytes Reader Socket Reader_generic Reader_file Reader_props Socket_lemmas.
+From PyUbx Require Import Base Bytes Reader Socket Reader_generic Reader_file Reader_props Socket_lemmas Read_iter.
+From Coq Require Import List.
 Open Scope N_scope.
 
 (* For a stream made of frames of the three protocols (UBX with any checksum bytes, NMEA
@@ -54,3 +55,23 @@ Proof.
   clear. induction cs1 as [|ch t IH]; [reflexivity|]. cbn [app deliver_all]. now rewrite IH, app_assoc.
 Qed.
 Print Assumptions C06_clean_appended.
+
+(* iterating read() - what __next__ does until read() reports the end - IS read_all: one call is `read1` (iterate `step`
+   until something is delivered, the stream ends or an exception leaves; its reports, oldest first; the iteration bound it
+   leaves), and read_all is the sequence of such calls.  Together with C06_read_from_source (the source's read() computes
+   read_one = read1 with the reports accumulated the other way round, Read_iter.read_one_read1) this is what connects
+   every theorem about read_all to the source of read(). *)
+Theorem C06_read_all_is_iteration : forall (S P : Type) (rd : nat -> S -> bytes * S) (rdl : S -> bytes * S)
+    (parse : N -> bytes -> result P) (nmea_hdr : N -> bool) (c : cfg) (n fuel : nat) (s : S),
+  (fuel <= n)%nat ->
+  read_all rd rdl parse nmea_hdr c fuel s = Read_iter.reads rd rdl parse nmea_hdr c (Datatypes.S n) fuel s.
+Proof. exact (@Read_iter.read_all_is_iteration). Qed.
+Print Assumptions C06_read_all_is_iteration.
+
+Theorem C06_read_one_read1 : forall (S P : Type) (rd : nat -> S -> bytes * S) (rdl : S -> bytes * S)
+    (parse : N -> bytes -> result P) (nmea_hdr : N -> bool) (c : cfg) (fuel : nat) (s : S) (acc : list exn),
+  Read_iter.read_one rd rdl parse nmea_hdr c fuel s acc =
+  let '(r, s', l, _) := Read_iter.read1 rd rdl parse nmea_hdr c fuel s in (r, s', (rev l ++ acc)%list).
+Proof. exact (@Read_iter.read_one_read1). Qed.
+Print Assumptions C06_read_one_read1.
+
